@@ -2,18 +2,48 @@
 A scripted raw-socket HTTP peer (TCP or Unix socket) for C19: it answers every request it *reads* with the
 next behaviour of the script installed for the current call.  The harness drives calls sequentially:
 
-    peer.begin_call([beh, ...])   # before each proxy call (goes down first when the script starts with "down")
-    ... proxy.echo(token) ...
-    peer.end_call()               # comes up again if it went down
+    peer.begin_call(i, [beh, ...])   # before each proxy call (goes down first when the script starts with "down")
+    ... proxy.echo(i) ...
+    peer.end_call()                  # waits until the peer is idle, sends the deferred ("late") bytes, comes up again
 
-Behaviours: ok okc down cbr rst sl<code> snl<code> bl<code> trunc empty nonjson  (see lean/JRV/Model/Transport.lean)
+Behaviours (see lean/JRV/Model/Transport.lean; <code> is any HTTP status, <k> a token):
+    ok okc down cbr rst trunc empty nonjson
+    sl<code>[o|f|e]    status <code> with Content-Length and a body, keep-alive.  Body: plain text (default), a JSON-RPC
+                       result for the call's OWN token (o), for ANOTHER token (f: token + FOREIGN), an error object (e)
+    snl<code>[o|f|e]   the same without a Content-Length header; the peer then closes the connection
+    bl<code>           bodiless status without a length header (204, 304), keep-alive
+    blz<code>          bodiless status announcing `Content-Length: 0`, keep-alive
+    xn<k>              200 + own result AND, in the same segment, an unsolicited complete 200 reply carrying token <k>
+    xl<k>              200 + own result; the unsolicited reply <k> is sent *late* (at end_call, when the client has consumed
+                       its own reply): it stays unread on the connection
+    sx<code>           status <code> whose body is longer than the announced Content-Length, all in one segment
+    sy<code>           the same, the surplus bytes (no line end, not an HTTP status line) are sent late
+    sz<code>_<k>       the same, the late surplus is followed by a complete 200 reply carrying token <k>
+
+A timeout of the peer's own bookkeeping (quiesce, accept thread) is an infrastructure failure (core.InfraError), never a
+silent pass.
 """
 import json
 import os
+import re
 import select
 import socket
 import struct
 import threading
+import time
+
+import core
+
+FOREIGN = 1000          # `f` bodies carry token + FOREIGN
+SURPLUS = b"SURPLUS-BYTES"   # no CR/LF: glued in front of whatever status line follows
+QUIESCE_TIMEOUT = 20.0  # seconds; far above anything a loaded machine needs for a loopback exchange
+
+BEH_RE = re.compile(r"^(ok|okc|down|cbr|rst|trunc|empty|nonjson|"
+                    r"sl\d+[ofe]?|snl\d+[ofe]?|bl\d+|blz\d+|xn\d+|xl\d+|sx\d+|sy\d+|sz\d+_\d+)$")
+
+
+def valid_beh(b):
+    return bool(BEH_RE.match(b))
 
 
 class Peer(object):
@@ -29,25 +59,31 @@ class Peer(object):
         self.port = None
         self.path = os.path.join(tmpdir, "peer.sock") if kind == "unix" else None
         self.is_down = False
-        self.seen = []  # (token, behaviour) for every request read
+        self.seen = []  # (token, behaviour, shadowed) for every request read; shadowed: unread late bytes precede the answer
+        self.deferred = []  # (connection, bytes) to send at end_call
+        self.dirty = set()  # connections on which late bytes were sent: the client no longer reads answers in step
+        self.late_sent = 0
         self.stopping = False
         self.come_up(first=True)
 
     # ---- lifecycle -------------------------------------------------------------------------
     def come_up(self, first=False):
-        if self.kind == "tcp":
-            s = socket.socket(socket.AF_INET, socket.SOCK_STREAM)
-            s.setsockopt(socket.SOL_SOCKET, socket.SO_REUSEADDR, 1)
-            s.bind(("127.0.0.1", self.port or 0))
-            self.port = s.getsockname()[1]
-        else:
-            try:
-                os.unlink(self.path)
-            except OSError:
-                pass
-            s = socket.socket(socket.AF_UNIX, socket.SOCK_STREAM)
-            s.bind(self.path)
-        s.listen(16)
+        try:
+            if self.kind == "tcp":
+                s = socket.socket(socket.AF_INET, socket.SOCK_STREAM)
+                s.setsockopt(socket.SOL_SOCKET, socket.SO_REUSEADDR, 1)
+                s.bind(("127.0.0.1", self.port or 0))
+                self.port = s.getsockname()[1]
+            else:
+                try:
+                    os.unlink(self.path)
+                except OSError:
+                    pass
+                s = socket.socket(socket.AF_UNIX, socket.SOCK_STREAM)
+                s.bind(self.path)
+            s.listen(16)
+        except OSError as ex:
+            raise core.InfraError("scripted peer cannot listen (%s): %s" % (self.kind, ex))
         self.listener = s
         self.is_down = False
         self.wake_r, self.wake_w = os.pipe()
@@ -69,7 +105,9 @@ class Peer(object):
         except OSError:
             pass
         if t is not None and t is not threading.current_thread():
-            t.join(5)
+            t.join(QUIESCE_TIMEOUT)
+            if t.is_alive() and not self.stopping:
+                raise core.InfraError("scripted peer: the accept thread did not stop within %.0f s" % QUIESCE_TIMEOUT)
         try:
             lst.close()
         except OSError:
@@ -84,6 +122,7 @@ class Peer(object):
         self._close_listener()
         with self.lock:
             conns, self.conns = self.conns, []
+            self.deferred = []
         for c in conns:
             try:
                 c.shutdown(socket.SHUT_RDWR)
@@ -112,6 +151,9 @@ class Peer(object):
     def begin_call(self, index, script):
         """Installs the script of call `index` (requests carry their call index as token, so a request
         read late - e.g. one the client abandoned - still consumes from its own call's script)."""
+        for b in script:
+            if not valid_beh(b):
+                raise core.InfraError("scripted peer: unknown behaviour %r" % (b,))
         with self.lock:
             self.scripts[index] = list(script)
         if script and script[0] == "down":
@@ -119,10 +161,11 @@ class Peer(object):
 
     def quiesce(self):
         """Waits until the peer has consumed everything the client has sent so far (a request the client
-        abandoned is still read and answered into the void) and no handler is in the middle of a request."""
-        import time
+        abandoned is still read and answered into the void) and no handler is in the middle of a request.
+        Not reaching that state within QUIESCE_TIMEOUT is an infrastructure failure."""
         calm = 0
-        for _ in range(2000):
+        deadline = time.monotonic() + QUIESCE_TIMEOUT
+        while True:
             with self.lock:
                 conns = list(self.conns)
                 active = self.active
@@ -131,19 +174,37 @@ class Peer(object):
                 try:
                     readable, _, _ = select.select(conns, [], [], 0)
                 except (OSError, ValueError):
-                    readable = [1]
+                    readable = [1]  # a connection was closed under us: look again
             if active == 0 and not readable:
                 calm += 1
                 if calm >= 2:
                     return
             else:
                 calm = 0
+            if time.monotonic() > deadline:
+                raise core.InfraError("scripted peer did not become idle within %.0f s (active handlers=%d, readable connections=%d)"
+                                      % (QUIESCE_TIMEOUT, active, len(readable)))
             time.sleep(0.0005)
 
     def end_call(self):
+        """Returns the number of connections on which late bytes were sent (the caller may want to wait until they
+        have reached the client's socket)."""
         self.quiesce()
+        with self.lock:
+            deferred, self.deferred = self.deferred, []
+        sent = 0
+        for c, data in deferred:
+            try:
+                c.sendall(data)
+                sent += 1
+                with self.lock:
+                    self.dirty.add(id(c))
+            except OSError:
+                pass
+        self.late_sent += sent
         if self.is_down and not self.stopping:
             self.come_up()
+        return sent
 
     def _next_beh(self, tok):
         with self.lock:
@@ -178,7 +239,7 @@ class Peer(object):
 
     def _read_request(self, c, on_data):
         buf = b""
-        c.settimeout(10)
+        c.settimeout(60)
         first = True
         while b"\r\n\r\n" not in buf:
             d = c.recv(65536)
@@ -233,44 +294,66 @@ class Peer(object):
                 pass
 
     def _handle(self, c, body):
-        if True:
-            if True:
-                if body is None:
-                    return False
-                try:
-                    req = json.loads(body.decode("utf-8"))
-                    tok = req["params"][0]
-                    rid = req.get("id")
-                except Exception:
-                    tok, rid = None, None
-                beh, nxt = self._next_beh(tok)
-                self.seen.append((tok, beh))
-                if nxt == "down":
-                    # the peer goes down right after this exchange: stop listening first
-                    self._close_listener()
-                keep = self._apply(c, beh, tok, rid)
-                if not keep:
-                    # close before reporting idle, so that the client-visible effect is complete
-                    with self.lock:
-                        if c in self.conns:
-                            self.conns.remove(c)
-                    try:
-                        c.close()
-                    except OSError:
-                        pass
-                return keep
+        if body is None:
+            return False
+        try:
+            req = json.loads(body.decode("utf-8"))
+            tok = req["params"][0]
+            rid = req.get("id")
+        except Exception:
+            tok, rid = None, None
+        beh, nxt = self._next_beh(tok)
+        with self.lock:
+            shadowed = id(c) in self.dirty
+        self.seen.append((tok, beh, shadowed))
+        if nxt == "down":
+            # the peer goes down right after this exchange: stop listening first
+            self._close_listener()
+        keep = self._apply(c, beh, tok, rid)
+        if not keep:
+            # close before reporting idle, so that the client-visible effect is complete
+            with self.lock:
+                if c in self.conns:
+                    self.conns.remove(c)
+                self.deferred = [(dc, d) for (dc, d) in self.deferred if dc is not c]
+            try:
+                c.close()
+            except OSError:
+                pass
+        return keep
 
-    def _send(self, c, status, reason, body, length="auto", extra=b""):
+    @staticmethod
+    def _reply(status, reason, body, length="auto", extra=b""):
         head = ("HTTP/1.1 %d %s\r\n" % (status, reason)).encode()
         if length == "auto":
             head += ("Content-Length: %d\r\n" % len(body)).encode()
         elif length is not None:
             head += ("Content-Length: %d\r\n" % length).encode()
         head += b"Content-Type: application/json\r\n" + extra + b"\r\n"
-        c.sendall(head + body)
+        return head + body
+
+    def _send(self, c, status, reason, body, length="auto", extra=b""):
+        c.sendall(self._reply(status, reason, body, length, extra))
+
+    @staticmethod
+    def _result(rid, tok):
+        return json.dumps({"jsonrpc": "2.0", "id": rid, "result": tok}).encode()
+
+    def _status_body(self, kind, tok, rid, plain):
+        if kind == "o":
+            return self._result(rid, tok)
+        if kind == "f":
+            return self._result(rid, (tok if isinstance(tok, int) else 0) + FOREIGN)
+        if kind == "e":
+            return json.dumps({"jsonrpc": "2.0", "id": rid, "error": {"code": -32603, "message": "Server error"}}).encode()
+        return plain
+
+    def _defer(self, c, data):
+        with self.lock:
+            self.deferred.append((c, data))
 
     def _apply(self, c, beh, tok, rid):
-        ok_body = json.dumps({"jsonrpc": "2.0", "id": rid, "result": tok}).encode()
+        ok_body = self._result(rid, tok)
         try:
             if beh == "ok":
                 self._send(c, 200, "OK", ok_body)
@@ -283,14 +366,39 @@ class Peer(object):
             if beh == "rst":
                 c.setsockopt(socket.SOL_SOCKET, socket.SO_LINGER, struct.pack("ii", 1, 0))
                 return False
-            if beh.startswith("snl"):
-                self._send(c, int(beh[3:]), "Err", b"oops", length=None)
-                return False
-            if beh.startswith("sl"):
-                self._send(c, int(beh[2:]), "Err", b"error")
+            m = re.match(r"^(snl|sl)(\d+)([ofe]?)$", beh)
+            if m:
+                code = int(m.group(2))
+                if m.group(1) == "snl":
+                    self._send(c, code, "Err", self._status_body(m.group(3), tok, rid, b"oops"), length=None)
+                    return False
+                self._send(c, code, "Err", self._status_body(m.group(3), tok, rid, b"error"))
+                return True
+            if beh.startswith("blz"):
+                c.sendall(("HTTP/1.1 %d No Content\r\nContent-Length: 0\r\n\r\n" % int(beh[3:])).encode())
                 return True
             if beh.startswith("bl"):
                 c.sendall(("HTTP/1.1 %d No Content\r\n\r\n" % int(beh[2:])).encode())
+                return True
+            if beh.startswith("xn"):
+                # one segment: the client's buffered reader takes both, the second reply is lost with the first response
+                c.sendall(self._reply(200, "OK", ok_body) + self._reply(200, "OK", self._result(rid, int(beh[2:]))))
+                return True
+            if beh.startswith("xl"):
+                self._send(c, 200, "OK", ok_body)
+                self._defer(c, self._reply(200, "OK", self._result(rid, int(beh[2:]))))
+                return True
+            if beh.startswith("sx"):
+                c.sendall(self._reply(int(beh[2:]), "Err", b"error" + SURPLUS, length=5))
+                return True
+            if beh.startswith("sy"):
+                self._send(c, int(beh[2:]), "Err", b"error", length=5)
+                self._defer(c, SURPLUS)
+                return True
+            if beh.startswith("sz"):
+                code, k = beh[2:].split("_")
+                self._send(c, int(code), "Err", b"error", length=5)
+                self._defer(c, SURPLUS + self._reply(200, "OK", self._result(rid, int(k))))
                 return True
             if beh == "trunc":
                 self._send(c, 200, "OK", ok_body[: max(1, len(ok_body) // 2)], length=len(ok_body) + 20)
@@ -303,4 +411,4 @@ class Peer(object):
                 return True
         except OSError:
             return False
-        return False
+        raise core.InfraError("scripted peer: behaviour %r not implemented" % (beh,))
